@@ -2,97 +2,7 @@
 use super::*;
 use anstyle::{Ansi256Color, AnsiColor, Color, RgbColor};
 
-const NEVER: usize = 99;
-const MAXCALLS: usize = 4;
-
-fn ansi_index(c: AnsiColor) -> u8 {
-    use AnsiColor::*;
-    match c {
-        Black => 0,
-        Red => 1,
-        Green => 2,
-        Yellow => 3,
-        Blue => 4,
-        Magenta => 5,
-        Cyan => 6,
-        White => 7,
-        BrightBlack => 8,
-        BrightRed => 9,
-        BrightGreen => 10,
-        BrightYellow => 11,
-        BrightBlue => 12,
-        BrightMagenta => 13,
-        BrightCyan => 14,
-        BrightWhite => 15,
-    }
-}
-
-#[derive(Clone, Copy)]
-struct Call {
-    fg: Option<u8>,
-    bg: Option<u8>,
-    data: [u8; 4],
-    offered: usize,
-    taken: usize,
-}
-
-/// Recording console writer: every `write_colored` call is logged; call `k` accepts
-/// `min(len, accept[k])` bytes or fails with `kind` when `k == fail_at`.
-struct Rec {
-    calls: [Call; MAXCALLS],
-    n: usize,
-    accept: [usize; MAXCALLS],
-    fail_at: usize,
-    kind: std::io::ErrorKind,
-}
-
-impl Rec {
-    fn new(accept: [usize; MAXCALLS], fail_at: usize, kind: std::io::ErrorKind) -> Self {
-        Rec {
-            calls: [Call {
-                fg: None,
-                bg: None,
-                data: [0; 4],
-                offered: 0,
-                taken: 0,
-            }; MAXCALLS],
-            n: 0,
-            accept,
-            fail_at,
-            kind,
-        }
-    }
-}
-
-impl anstyle_wincon::WinconStream for Rec {
-    fn write_colored(&mut self, fg: Option<AnsiColor>, bg: Option<AnsiColor>, data: &[u8]) -> std::io::Result<usize> {
-        let k = self.n;
-        self.n += 1;
-        if k == self.fail_at {
-            return Err(self.kind.into());
-        }
-        let cap = if k < MAXCALLS { self.accept[k] } else { usize::MAX };
-        let n = if data.len() < cap { data.len() } else { cap };
-        if k < MAXCALLS {
-            let mut c = Call {
-                fg: fg.map(ansi_index),
-                bg: bg.map(ansi_index),
-                data: [0; 4],
-                offered: data.len(),
-                taken: n,
-            };
-            let mut i = 0;
-            while i < 4 {
-                if i < data.len() {
-                    c.data[i] = data[i];
-                }
-                i += 1;
-            }
-            self.calls[k] = c;
-        }
-        Ok(n)
-    }
-}
+use super::rec::*;
 
 /// Colour capping: complete over all colours.
 #[kani::proof]
